@@ -48,6 +48,11 @@ def pow_int(p):
     if entry == 'libmp':
         outs = ob.run(L.mpf_pow_int, [x, n, prec, rnd])
         unwrap = lambda v, st: v
+    elif entry == 'powf':
+        # the general power with an integer-valued mpf exponent (x ** mpf(n), x ** -3.0, mp.power(x, n)) must be the integer power
+        from mpmath.libmp import libelefun
+        outs = ob.run(libelefun.mpf_pow, [x, L.from_int(n), prec, rnd])
+        unwrap = lambda v, st: v
     else:
         mp = _ctx(prec)
         outs = ob.run(mp.mpf.__pow__, [mp.make_mpf(x), n])
@@ -134,7 +139,10 @@ def pow_int_concrete(p, m):
     bc, n, prec, rnd = p['bc'], p['n'], p['prec'], p['rnd']
     x = mk_tuple(m, 'x', bc, sign=p.get('sign'))
     limit = p.get('limit')
-    if p.get('entry', 'libmp') != 'libmp':
+    if p.get('entry', 'libmp') == 'powf':
+        from mpmath.libmp import libelefun
+        r = libelefun.mpf_pow(x, L.from_int(n), prec, rnd)
+    elif p.get('entry', 'libmp') != 'libmp':
         mp = _ctx(prec)
         try:
             r = (mp.make_mpf(x) ** n)._mpf_
